@@ -1,5 +1,5 @@
 (* C14 proofs, part b: consensus votes, call dictionary, XM strings and totals *)
-From Coq Require Import ZArith List Bool Lia.
+From Coq Require Import ZArith List Bool Lia Arith.
 Import ListNotations.
 From SCMO Require Import Lib.Val Gen.GenTaps Model.C14 Proofs.C14_a.
 Open Scope Z_scope.
@@ -63,12 +63,12 @@ Proof.
   apply rdict_In in H as [r [p [H1 [H2 [H3 [H4 _]]]]]]. eauto 8.
 Qed.
 
-(* a fragment supports base b at pos: it is a proper (for dove-safe calling: paired, inward facing) fragment,
+(* a fragment supports base b at pos: (for dove-safe calling: it is a paired, inward facing fragment,)
    pos lies inside its mate-overlap-safe span [lo,hi], one of its mates has an aligned base b there whose MD
    reference base is the expected base and whose phred passes the threshold *)
 Definition supports (c : cfg) (f : frag) (pos b : Z) : Prop :=
   exists o1 o2 lo hi r p,
-    f = (o1, o2) /\ has o1 = true /\ (c_unsafe c = false -> has o2 = true) /\
+    f = (o1, o2) /\ (c_unsafe c = false -> has o1 = true /\ has o2 = true) /\
     safe_span c f = Some (lo, hi) /\ (o1 = Some r \/ o2 = Some r) /\ r_md r = true /\
     In p (r_pairs r) /\ p_pos p = pos /\ p_base p = b /\ keep lo hi (expected c) (c_minq c) p = true.
 
@@ -79,17 +79,18 @@ Proof.
   destruct (Z.eqb_spec b' cN) as [|Hn]; [destruct Hv|]. destruct Hv as [Hv|[]]. injection Hv as -> ->.
   split; auto.
   unfold frag_cons in E. destruct f as [o1 o2].
-  destruct ((negb (c_unsafe c) && negb (has o2)) || negb (has o1)) eqn:Hskip; [discriminate|].
-  apply orb_false_iff in Hskip as [Hs1 Hs2]. apply negb_false_iff in Hs2.
+  destruct (negb (c_unsafe c) && (negb (has o2) || negb (has o1))) eqn:Hskip; [discriminate|].
+  assert (Hboth : c_unsafe c = false -> has o1 = true /\ has o2 = true).
+  { intros Hu. rewrite Hu in Hskip. cbn in Hskip. apply orb_false_iff in Hskip as [A B].
+    apply negb_false_iff in A, B. auto. }
   destruct (safe_span c (o1, o2)) as [[lo hi]|] eqn:Hspan; [|discriminate].
   destruct (md_ok o1 && md_ok o2) eqn:Hmd; [|discriminate]. apply andb_true_iff in Hmd as [Hmd1 Hmd2].
   injection E as <-. apply in_map_iff in Hin as [k [Ek Hk]]. injection Ek as -> Epb.
   apply pick_best_origin in Epb as [Epb|[[q' Epb]|[q' Epb]]]; [congruence| |].
   - apply dget_In, rdict_In in Epb as [r [p [-> [Hp [Hkeep [Hpos [Hbase _]]]]]]].
-    exists (Some r), o2, lo, hi, r, p. repeat split; auto.
-    intros Hu. rewrite Hu in Hs1. cbn in Hs1. now apply negb_false_iff in Hs1.
+    exists (Some r), o2, lo, hi, r, p. repeat split; auto; now apply Hboth.
   - apply dget_In, rdict_In in Epb as [r [p [-> [Hp [Hkeep [Hpos [Hbase _]]]]]]].
-    exists o1, (Some r), lo, hi, r, p. repeat split; auto.
+    exists o1, (Some r), lo, hi, r, p. repeat split; auto; now apply Hboth.
 Qed.
 
 Lemma votes_origin c fs pos b : In (pos, b) (votes c fs) -> exists f, In f fs /\ supports c f pos b /\ b <> cN.
@@ -107,7 +108,7 @@ Qed.
 Lemma votes_wf c fs pos b : wf fs = true -> In (pos, b) (votes c fs) -> 0 <= pos /\ is_acgt b = true.
 Proof.
   intros Hwf Hv. apply votes_origin in Hv as [f [Hf [[o1 [o2 [lo [hi [r [p H]]]]]] Hn]]].
-  destruct H as [-> [_ [_ [_ [Hr [_ [Hp [Hpos [Hbase _]]]]]]]]].
+  destruct H as [-> [_ [_ [Hr [_ [Hp [Hpos [Hbase _]]]]]]]].
   assert (Hok : read_ok r = true) by (eapply wf_read; eauto).
   unfold read_ok in Hok. rewrite forallb_forall in Hok. specialize (Hok p Hp).
   apply andb_true_iff in Hok as [Hok _]. apply andb_true_iff in Hok as [H0 Hb].
@@ -179,7 +180,7 @@ Proof. unfold expected. destruct (c_tapsF c), (truthy (c_strand c)); auto. Qed.
 Lemma calls_In c ref fs cs k : calls c ref fs = OK cs -> In k cs ->
   exists e, In e (consensus c fs) /\ k = mk_call c ref e.
 Proof.
-  unfold calls. intros H Hk.
+  unfold calls, calls_t. intros H Hk.
   assert (cs = map (mk_call c ref) (consensus c fs)) as ->.
   { destruct (c_strand c); [injection H; auto|]. destruct (consensus c fs); [injection H; auto|discriminate]. }
   apply in_map_iff in Hk as [e [<- He]]. eauto.
@@ -187,13 +188,13 @@ Qed.
 
 Lemma calls_map c ref fs cs : calls c ref fs = OK cs -> cs = map (mk_call c ref) (consensus c fs).
 Proof.
-  unfold calls. intros H.
+  unfold calls, calls_t. intros H.
   destruct (c_strand c); [injection H; auto|]. destruct (consensus c fs); [injection H; auto|discriminate].
 Qed.
 
 Lemma calls_raise c ref fs : calls c ref fs = Raise <-> c_strand c = None /\ consensus c fs <> [].
 Proof.
-  unfold calls. destruct (c_strand c); [split; [discriminate|intros [? _]; discriminate]|].
+  unfold calls, calls_t. destruct (c_strand c); [split; [discriminate|intros [? _]; discriminate]|].
   destruct (consensus c fs); split; try discriminate; try (intros [_ H]; congruence); auto.
   intros _. split; auto. discriminate.
 Qed.
@@ -204,14 +205,14 @@ Lemma call_spec c ref fs cs k : wf fs = true -> calls c ref fs = OK cs -> In k c
   k_letter k = spec_letter ref (k_pos k) (expected c) (k_cons k).
 Proof.
   intros Hwf Hc Hk. destruct (calls_In _ _ _ _ _ Hc Hk) as [[[pos b] cov] [He ->]].
-  cbn [mk_call k_pos k_cons k_cov k_letter]. split; auto.
+  unfold mk_call; cbn [mk_call_t k_pos k_cons k_cov k_letter]. split; auto.
   destruct (consensus_In _ _ _ _ _ He) as [Hp [Hw _]].
   apply in_map_iff in Hp as [[p' b'] [Ep Hv]]. cbn in Ep. subst p'.
   destruct (votes_wf _ _ _ _ Hwf Hv) as [H0 _].
   destruct (winners_single _ _ _ Hw) as [Hb _].
   assert (Hacgt : is_acgt b = true) by (cbn in Hb; destruct Hb as [<-|[<-|[<-|[<-|[]]]]]; reflexivity).
   repeat split; auto.
-  rewrite symbol_spec by (auto using expected_CG). now rewrite upper_idem_base.
+  fold symbol. rewrite symbol_spec by (auto using expected_CG). now rewrite upper_idem_base.
 Qed.
 
 Lemma call_majority c ref fs cs k : calls c ref fs = OK cs -> In k cs ->
@@ -220,7 +221,7 @@ Lemma call_majority c ref fs cs k : calls c ref fs = OK cs -> In k cs ->
   forall b', In b' bases -> b' <> k_cons k -> count vs (k_pos k) b' < count vs (k_pos k) (k_cons k).
 Proof.
   intros Hc Hk vs. destruct (calls_In _ _ _ _ _ Hc Hk) as [[[pos b] cov] [He ->]].
-  cbn [mk_call k_pos k_cons k_cov k_letter].
+  unfold mk_call; cbn [mk_call_t k_pos k_cons k_cov k_letter].
   destruct (consensus_In _ _ _ _ _ He) as [_ [Hw ->]].
   destruct (winners_single _ _ _ Hw) as [_ [H1 [H2 H3]]]. fold vs in H1, H2, H3 |- *. rewrite <- H1. auto.
 Qed.
@@ -230,7 +231,7 @@ Lemma call_supported c ref fs cs k : calls c ref fs = OK cs -> In k cs ->
   exists f, In f fs /\ supports c f (k_pos k) (k_cons k).
 Proof.
   intros Hc Hk. destruct (calls_In _ _ _ _ _ Hc Hk) as [[[pos b] cov] [He ->]].
-  cbn [mk_call k_pos k_cons]. destruct (consensus_In _ _ _ _ _ He) as [_ [Hw _]].
+  unfold mk_call; cbn [mk_call_t k_pos k_cons]. destruct (consensus_In _ _ _ _ _ He) as [_ [Hw _]].
   destruct (winners_single _ _ _ Hw) as [_ [_ [Hpos _]]].
   unfold count in Hpos.
   destruct (filter (fun v => (fst v =? pos) && (snd v =? b)) (votes c fs)) as [|[p' b'] t] eqn:EF; [cbn in Hpos; lia|].
@@ -249,7 +250,7 @@ Lemma supports_safe c f pos b : c_unsafe c = false -> supports c f pos b ->
                 upper (p_ref p) = expected c /\
                 match c_minq c with None => True | Some m => m <= p_qual p end.
 Proof.
-  intros Hu [o1 [o2 [lo [hi [r [p [-> [H1 [H2 [Hs [Hr [_ [Hp [Hpos [Hb Hk]]]]]]]]]]]]]]].
+  intros Hu [o1 [o2 [lo [hi [r [p [-> [H1 [Hs [Hr [_ [Hp [Hpos [Hb Hk]]]]]]]]]]]]]].
   unfold safe_span in Hs. rewrite Hu in Hs.
   destruct o1 as [r1|]; [|discriminate]. destruct o2 as [r2|]; [|discriminate].
   unfold keep in Hk. apply andb_true_iff in Hk as [Hk Href]. apply andb_true_iff in Hk as [Hk Hq].
@@ -352,6 +353,22 @@ Lemma run_tags v cs : wf (dec_frags v) = true -> calls (dec_cfg v) (dec_ref v) (
                             (reads_of (dec_frags v)))].
 Proof. intros Hwf Hc. unfold run_C14. rewrite Hwf, Hc. reflexivity. Qed.
 
+(* ------------------------------------------------------------------ histories through one TAPS object *)
+Definition alone (t : taps) (m : molecule) : result (list call) := calls_t t (m_cfg m) (m_ref m) (m_frags m).
+
+(* statelessness: whatever was processed before (other contigs, the same coordinates, the same contig again),
+   every molecule gets exactly the calls it gets when processed alone by a fresh object *)
+Lemma history_stateless : forall ms t, history t ms = map (alone t) ms.
+Proof. induction ms as [|m ms IH]; intros t; cbn [history process map]; [reflexivity|]. now rewrite IH. Qed.
+
+Lemma history_nth ms i m : nth_error ms i = Some m ->
+  nth_error (history taps0 ms) i = Some (calls (m_cfg m) (m_ref m) (m_frags m)).
+Proof. intros H. rewrite history_stateless, nth_error_map, H. reflexivity. Qed.
+
+Lemma history_prefix_irrelevant pre m post :
+  nth_error (history taps0 (pre ++ m :: post)) (length pre) = Some (calls (m_cfg m) (m_ref m) (m_frags m)).
+Proof. apply history_nth. rewrite nth_error_app2 by auto. now rewrite Nat.sub_diag. Qed.
+
 (* ------------------------------------------------------------------ call-level corollaries *)
 (* a letter in the dictionary: on a reference C/G, true context, case = observed conversion *)
 Lemma call_called c ref fs cs k : wf fs = true -> calls c ref fs = OK cs -> In k cs -> k_letter k <> cDot ->
@@ -448,3 +465,15 @@ Definition ex_r1 : read := mkRead false 0 9 true (mk_pairs 0 [84;84;71;65;67;67;
 Definition ex_r2 : read := mkRead true 2 11 true (mk_pairs 2 [71;65;67;67;71;71;65;67;71] [71;65;67;67;71;71;110;67;71] 30).
 Definition ex_cfg (cached : bool) : cfg := mkCfg cached (Some false) true false 0 0 None.
 Definition ex_frags : list frag := [(Some ex_r1, Some ex_r2)].
+Definition ex_ref2 : list Z := [84;84;71;65;67;65;71;71;78;67;65].   (* TTGACAGGNCA *)
+
+(* the model's history entry point (mode 4) is the per-molecule entry point (mode 0) applied to each molecule *)
+Lemma run_history v : forallb (fun m => wf (m_frags m)) (map dec_mol (getL v)) = true ->
+  run_C14 4 v = VL (map (run_C14 0) (getL v)).
+Proof.
+  intros H. unfold run_C14 at 1. rewrite H. cbn [negb]. f_equal. rewrite history_stateless.
+  induction (getL v) as [|x l IH]; [reflexivity|].
+  cbn [map forallb] in H. apply andb_true_iff in H as [Hx Hl].
+  cbn [map combine fst snd]. rewrite (IH Hl). f_equal.
+  unfold run_C14. cbn [m_frags dec_mol] in Hx. rewrite Hx. reflexivity.
+Qed.
